@@ -78,7 +78,8 @@ def extract(exe):
 
 def mine(prop, why):
     """which property a contract rejection belongs to: the flush clauses are C06's, the removal clauses C17's, everything else C07's"""
-    owner = "C06" if why.startswith("flush_log()") else "C17" if why.startswith("remove_logger_blocking()") else "C07"
+    owner = ("C06" if why.startswith("flush_log()") else "C17" if why.startswith("remove_logger_blocking()")
+             else "C20" if why.startswith("thread-context") else "C07")
     return prop == owner
 
 
@@ -195,13 +196,16 @@ def run_for(ck):
                 (1, 1, 1, 0)])
     if ck.prop == "C06":
         configs = [c for c in configs if c[2] > 0]
+    if ck.prop == "C20":
+        # a second thread that logs and exits while the backend polls; its context must outlive its unread statements
+        configs = [(1, 1, 0, 0), (1, 2, 0, 0)] if quick else [(1, 1, 0, 0), (1, 2, 0, 0), (2, 2, 0, 0)]
     if ck.prop == "C17":
         # remove_logger_blocking(): statements, optionally a flush, then the removal, then (maybe) the stop
         configs = [(1, 0, 0, 1), (2, 0, 0, 1)] if quick else [(1, 0, 0, 1), (2, 0, 0, 1), (3, 0, 0, 1), (2, 0, 1, 1)]
     for recs, maxy, maxf, maxr in configs:
         label = f"stop-{recs}-{maxy}-{maxf}" + (f"-r{maxr}" if maxr else "")
         cfg = vlib.write_cfg(vlib.BUILD / "cfg" / f"StopRA_{ck.prop}_{label}.cfg",
-                             cfg_text(k, recs, True, maxy, maxf, {"C06": "FlushOK", "C17": "RemoveOK"}.get(ck.prop, "NoLoss"), maxr))
+                             cfg_text(k, recs, True, maxy, maxf, {"C06": "FlushOK", "C17": "RemoveOK", "C20": "NoReclaimLoss"}.get(ck.prop, "NoLoss"), maxr))
         r = vlib.tlc("StopRA", cfg, timeout=900, coverage=quick)
         if r.error:
             raise vlib.Infra(r.error)
